@@ -127,12 +127,42 @@ def slot_spec(rng, kind, cache_ids):
         prof = copy.deepcopy(rng.choice(MARKUP_PROFILES if kind == 'markup' else CSS_PROFILES))
     s = {'user': prof, 'as_config': rng.random() < 0.4, 'cache': rng.choice(cache_ids) if rng.random() < 0.6 else None,
          'raising_field_at': rng.choice([None, None, None, 1, 2, 4]) if kind == 'markup' else None}
+    if rng.random() < 0.25:
+        s['global'] = rand_global(rng, kind, prof)
     return s
+
+
+def rand_global(rng, kind, prof):
+    "the rarely used third argument of expand(): a global configuration with a section per type / syntax"
+    if kind == 'stylesheet':
+        sect = rng.choice(['stylesheet', prof.get('syntax', 'css'), 'css'])
+        body = rng.choice([{'snippets': {'m': 'margin-block', 'p': 'padding-inline', 'zz': 'zed-g:7'}}, {'snippets': {'foo': 'glob:1|2'}},
+                           {'options': {'stylesheet.intUnit': 'gu', 'stylesheet.between': ' := '}}, {'snippets': {'posx': 'gpos:9'}, 'options': {'stylesheet.after': ' !g;'}}])
+    else:
+        sect = rng.choice(['markup', prof.get('syntax', 'html'), 'html'])
+        body = rng.choice([{'snippets': {'vs': 'x-g[g]>x-h', 'a': 'a[href=g]'}}, {'variables': {'lang': 'gl', 'charset': 'g-8'}},
+                           {'options': {'output.indent': '  ', 'output.tagCase': 'upper'}}, {'snippets': {'doc': 'html[lang=${lang}]'}, 'variables': {'lang': 'gv'}}])
+    g = {sect: body}
+    if rng.random() < 0.3:
+        g['nosuch'] = {'snippets': {'p': 'decoy'}}
+    return g
 
 
 def gen_hostile_cache_history(rng):
     "few keys, one cache, differing unit options: aimed at state shared through the cache"
     r = rng.random()
+    if r < 0.12:
+        # one user config, one cache, global configurations that differ (or one absent)
+        u = rng.choice([{'type': 'stylesheet'}, {'type': 'stylesheet', 'snippets': {'foo': 'bar:10'}}, {'type': 'stylesheet', 'syntax': 'scss'}])
+        gs = rng.sample([None, {'stylesheet': {'snippets': {'m': 'margin-block', 'p': 'padding-inline'}}}, {'css': {'snippets': {'zz': 'zed-g:7', 'foo': 'glob:1'}}},
+                         {'stylesheet': {'options': {'stylesheet.intUnit': 'gu'}}}, {'scss': {'snippets': {'m': 'mm-scss'}}, 'css': {'snippets': {'m': 'mm-css'}}}], 2)
+        slots = [{'user': copy.deepcopy(u), 'as_config': rng.random() < 0.3, 'cache': 'c0', 'raising_field_at': None} for _ in gs]
+        for sl, g in zip(slots, gs):
+            if g is not None:
+                sl['global'] = g
+        hot = ['m10', 'p5', 'zz', 'foo', 'm1.5', 'p10+m0', 'zom', 'w10']
+        calls = [{'slot': rng.randrange(2), 'abbr': rng.choice(hot)} for _ in range(rng.randint(1, 5))]
+        return {'slots': slots, 'calls': calls, 'probe': {'slot': rng.randrange(2), 'abbr': rng.choice(hot)}}
     if r < 0.3:
         # two snippet tables, one restricting scope, one cache
         sc = {'name': rng.choice(['@@section', '@@property', '@@global'])}
@@ -195,7 +225,17 @@ def materialize(spec, caches, use_cache=True):
         user['cache'] = caches.setdefault(spec['cache'], {})
     if spec.get('raising_field_at') is not None:
         user.setdefault('options', {})['output.field'] = FieldBomb(spec['raising_field_at'])
-    return Config(user) if spec['as_config'] else user
+    glob = copy.deepcopy(spec.get('global'))
+    if spec['as_config']:
+        return (Config(user, glob) if glob is not None else Config(user), None)
+    return (user, glob)
+
+
+def expand2(abbr, args):
+    "expand through the two- or three-argument form (the third argument is the global configuration)"
+    import emmet
+    cfg, glob = args
+    return emmet.expand(abbr, cfg, glob) if glob is not None else emmet.expand(abbr, cfg)
 
 
 def outcome(fn):
@@ -221,25 +261,25 @@ def child_history(h, fault=None):
         if fault is not None and i == fault['call']:
             k = fault['k']
             if k == 'count':
-                n = inj.count(lambda: emmet.expand(c['abbr'], objs[c['slot']]))
+                n = inj.count(lambda: expand2(c['abbr'], objs[c['slot']]))
                 log.append({'seq': i, 'slot': c['slot'], 'abbr': c['abbr'], 'entries': n, 'outcome': ['counted']})
                 continue
-            r = inj.run(lambda: emmet.expand(c['abbr'], objs[c['slot']]), k)
+            r = inj.run(lambda: expand2(c['abbr'], objs[c['slot']]), k)
             oc = ['ok', r[1]] if r[0] == 'ok' else ['exc', type(r[1]).__name__, getattr(r[1], 'pos', None)]
             log.append({'seq': i, 'slot': c['slot'], 'abbr': c['abbr'], 'outcome': oc, 'fault_at': inj.where})
             del r       # the exception's traceback references the interrupted frames: it must not survive to the census
             continue
-        log.append({'seq': i, 'slot': c['slot'], 'abbr': c['abbr'], 'outcome': outcome(lambda: emmet.expand(c['abbr'], objs[c['slot']]))})
+        log.append({'seq': i, 'slot': c['slot'], 'abbr': c['abbr'], 'outcome': outcome(lambda: expand2(c['abbr'], objs[c['slot']]))})
     if inj is not None:
         inj.uninstall()
     p = h['probe']
     # a raising callback of the history must not decide the probe: callbacks restart counting for the probe
-    o = objs[p['slot']]
+    o = objs[p['slot']][0]
     opt = o.options if hasattr(o, 'options') else o.get('options', {})
     cb = opt.get('output.field') if isinstance(opt, dict) else None
     if isinstance(cb, FieldBomb):
         cb.at = None
-    probe_out = outcome(lambda: emmet.expand(p['abbr'], o))
+    probe_out = outcome(lambda: expand2(p['abbr'], objs[p['slot']]))
     # quiescent point: nothing of the history is referenced any more
     del objs, caches, o, opt, cb
     cen = census.snapshot()
@@ -252,7 +292,7 @@ def child_pristine(h):
     p = h['probe']
     spec = dict(h['slots'][p['slot']], raising_field_at=None)
     res = {}
-    res['fresh_cache'] = outcome(lambda: emmet.expand(p['abbr'], materialize(spec, {}, True)))
+    res['fresh_cache'] = outcome(lambda: expand2(p['abbr'], materialize(spec, {}, True)))
     return res
 
 
@@ -260,7 +300,7 @@ def child_pristine_nocache(h):
     import emmet
     p = h['probe']
     spec = dict(h['slots'][p['slot']], raising_field_at=None)
-    return {'no_cache': outcome(lambda: emmet.expand(p['abbr'], materialize(spec, {}, False)))}
+    return {'no_cache': outcome(lambda: expand2(p['abbr'], materialize(spec, {}, False)))}
 
 
 def forked(fn, *args):
@@ -321,7 +361,7 @@ def check_history(h, ctx, baseline, cls, fault=None):
         spec = h['slots'][e['slot']]
         if spec.get('raising_field_at') is not None:
             continue            # a counting callback is an argument that differs from call to call
-        key = (e['abbr'], json.dumps({'user': spec['user']}, sort_keys=True))
+        key = (e['abbr'], json.dumps({'user': spec['user'], 'global': spec.get('global')}, sort_keys=True))
         if key in seen and seen[key]['outcome'] != e['outcome']:
             ctx.violation('equal-arguments-different-outcome', dict(case, features=history_features(h, a, fault)),
                           {'first': seen[key], 'later': e})
